@@ -4,6 +4,7 @@ import LZ4V.Judge.Decode
 import LZ4V.Judge.Frame
 import LZ4V.Judge.Stream
 import LZ4V.Judge.Cli
+import LZ4V.Judge.WR
 import Std.Data.HashMap
 /-!
 `lz4vmodel judge <casefile> <faildir>` : walk the case records written by a harness, run the specification / model
@@ -22,6 +23,7 @@ def dispatch (blobs : Std.HashMap Nat ByteArray) (r : Rec) : Verdict :=
   | 6 => judgeStreamBlock r
   | 7 => judgeCliArchive r
   | 8 => judgeCliDecode r
+  | 9 => (let x := judgeWR r; { fails := x.1, tags := x.2 })
   | 100 => {}
   | _ => { fails := [("unknown_op", s!"op={r.op}")] }
 
